@@ -19,13 +19,13 @@ type J = map[string]any
 
 // Plan is one constant assignment of E2EMC.tla.
 type Plan struct {
-	Name     string   `json:"name"`
-	Cfg      dkg.Cfg  `json:"cfg"`
-	Ids      []string `json:"ids"`
-	MaxLoss  int      `json:"maxLoss"`
-	Run      []string `json:"run"`      // strategy names (empty = all strategies of the plan's Byz)
-	PerStrat int      `json:"perStrat"` // phase-2 schedules replayed per strategy (0 = all)
-	Worlds   int      `json:"worlds"`   // real DKG runs per strategy among which the schedules are spread
+	Name     string     `json:"name"`
+	Cfg      dkg.Cfg    `json:"cfg"`
+	Rounds   [][]string `json:"rounds"` // identity lists, one per decryption trigger round (may overlap)
+	MaxLoss  int        `json:"maxLoss"`
+	Run      []string   `json:"run"`      // strategy names (empty = all strategies of the plan's Byz)
+	PerStrat int        `json:"perStrat"` // phase-2 schedules replayed per strategy (0 = all)
+	Worlds   int        `json:"worlds"`   // real DKG runs per strategy among which the schedules are spread
 }
 
 func setText(xs []int) string {
@@ -57,12 +57,35 @@ func (p Plan) defs(mod, base string) []byte {
 	if len(p.Run) > 0 {
 		run = strSet(p.Run)
 	}
-	return []byte(fmt.Sprintf("---- MODULE %s ----\nEXTENDS %s\ncByz == %s\ncIds == %s\ncRun == %s\n====\n",
-		mod, base, setText(p.Cfg.Byz), strSeq(p.Ids), run))
+	return []byte(fmt.Sprintf("---- MODULE %s ----\nEXTENDS %s\ncByz == %s\ncRounds == %s\ncRun == %s\n====\n",
+		mod, base, setText(p.Cfg.Byz), p.roundsText(), run))
+}
+
+func (p Plan) roundsText() string {
+	var rs []string
+	for _, r := range p.Rounds {
+		rs = append(rs, strSeq(r))
+	}
+	return "<<" + strings.Join(rs, ", ") + ">>"
+}
+
+// Ids returns the identity names of all rounds (each once, in order of first appearance).
+func (p Plan) Ids() []string {
+	var out []string
+	seen := map[string]bool{}
+	for _, r := range p.Rounds {
+		for _, id := range r {
+			if !seen[id] {
+				seen[id] = true
+				out = append(out, id)
+			}
+		}
+	}
+	return out
 }
 
 func (p Plan) consts() string {
-	return fmt.Sprintf(" N = %d\n T = %d\n Byz <- cByz\n PhaseLen = %d\n Ids <- cIds\n", p.Cfg.N, p.Cfg.T, p.Cfg.PhaseLen)
+	return fmt.Sprintf(" N = %d\n T = %d\n Byz <- cByz\n PhaseLen = %d\n Rounds <- cRounds\n", p.Cfg.N, p.Cfg.T, p.Cfg.PhaseLen)
 }
 
 func (p Plan) mcFiles() (string, map[string][]byte, string) {
@@ -75,7 +98,7 @@ func (p Plan) mcFiles() (string, map[string][]byte, string) {
 func (p Plan) trFiles(trace []byte) (string, map[string][]byte, string) {
 	mod := "TRgen_e2e_" + strings.ReplaceAll(p.Name, "-", "_")
 	cfg := "CONSTANTS\n" + p.consts() + " TraceFile = \"trace.ndjson\"\nSPECIFICATION ESpec\nINVARIANT EDone\nCHECK_DEADLOCK FALSE\n"
-	body := fmt.Sprintf("---- MODULE %s ----\nEXTENDS E2ETrace\ncByz == %s\ncIds == %s\n====\n", mod, setText(p.Cfg.Byz), strSeq(p.Ids))
+	body := fmt.Sprintf("---- MODULE %s ----\nEXTENDS E2ETrace\ncByz == %s\ncRounds == %s\n====\n", mod, setText(p.Cfg.Byz), p.roundsText())
 	return mod, map[string][]byte{mod + ".tla": []byte(body), "trace.ndjson": trace}, cfg
 }
 
@@ -83,10 +106,12 @@ func (p Plan) trFiles(trace []byte) (string, map[string][]byte, string) {
 type AbsMsg struct {
 	T       string `json:"t"`
 	From    int    `json:"from"`
+	R       int    `json:"r"` // the round whose identity list the message carries
+	X       int    `json:"x"` // round of the flavour extra (core: 0)
 	Signers []int  `json:"signers"`
 }
 
-func (a AbsMsg) key() string { return fmt.Sprintf("%s/%d/%v", a.T, a.From, a.Signers) }
+func (a AbsMsg) key() string { return fmt.Sprintf("%s/%d/%d/%d/%v", a.T, a.From, a.R, a.X, a.Signers) }
 
 // Action is one step of a phase-2 schedule.
 type Action struct {
@@ -97,10 +122,9 @@ type Action struct {
 
 // Schedule is one phase-2 behaviour printed by TLC.
 type Schedule struct {
-	Strat  string   `json:"strat"`
-	Wt     []int    `json:"wt"`
-	Sched  []Action `json:"sched"`
-	Enough bool     `json:"enough"`
+	Strat string   `json:"strat"`
+	Wt    [][]int  `json:"wt"` // per round: the nodes triggered for it
+	Sched []Action `json:"sched"`
 }
 
 // Phase1 is the phase-1 behaviour of one strategy printed by TLC.
@@ -174,6 +198,11 @@ func Generate(c *core.Ctx, p Plan, workers int) (*Gen, error) {
 		var sc Schedule
 		if err := json.Unmarshal([]byte(s), &sc); err != nil {
 			return nil, fmt.Errorf("schedule not decodable: %v: %.200s", err, s)
+		}
+		for i := range sc.Wt {
+			if sc.Wt[i] == nil {
+				sc.Wt[i] = []int{}
+			}
 		}
 		for i := range sc.Sched {
 			if sc.Sched[i].M.Signers == nil {
